@@ -188,10 +188,13 @@ CHECKS = {
    text='PARTIAL. Proved (Coq): every XML parser construction / parse-call site of the odf package is a defusedxml one (table '
         'regenerated from the working tree by an ast walk with import resolution, obligation re-checked every run); every entry point has '
         'such sites; load() parses the manifest and every listed part of the main document and of every embedded object folder (model of '
-        'the manifest dispatch, tied by correspondence); and, UNDER THE HYPOTHESIS that a guarded parser raises on a document declaring '
+        'the manifest dispatch, tied by correspondence); the textual patch load() applies to every member before parsing it '
+        '(__fixXmlPart, modelled as a string function and tied by correspondence) leaves the member unchanged up to the end of its '
+        'document type declaration, for every string (C13_dtd_untouched), so what the package declares is what the parser sees; and, UNDER THE HYPOTHESIS that a guarded parser raises on a document declaring '
         'entities, an entry point whose reads all go through guarded sites fails as soon as one member it reads is dangerous. The '
         'hypothesis is run-time behaviour of defusedxml/expat which no Gallina model can exhibit: it is tested, exhaustively in both tiers, '
-        'by the injection matrix (9 members x 8 injection kinds x 5 entry points) with a canary file and open()/urlopen watchers.',
+        'by the injection matrix (9 members x 10 injection kinds x 5 entry points, embedded objects of every document class) with a '
+        'canary file and open()/urlopen watchers.',
    note='Axioms: none; one Section hypothesis (guarded_refuses) discharged into an explicit premise of C13_refuses. The ast walk does '
         'not see parsers reached through getattr/eval or C extensions.',
    tech='Coq proof over a regenerated call-site table + Section hypothesis about the parser + exhaustive injection matrix',
